@@ -1,6 +1,7 @@
 package main
 
 import (
+	"sort"
 	"fmt"
 	"go/types"
 	"strings"
@@ -492,6 +493,34 @@ func (f *Frame) applyContract(c *Contract, callee *ssa.Function, sig *types.Sign
 	// havoc modifies
 	if len(c.ModComps) > 0 {
 		e.havocMatching(st, c.ModComps)
+	}
+	if !c.HasMod && len(c.ModComps) == 0 && !c.Trusted && !c.External && !c.UF && callee != nil && len(callee.Blocks) > 0 {
+		// a verified contract without a frame clause proves nothing about what the function writes: havoc what
+		// its body can write (static write set, allocation sites excluded: fresh objects need no havoc)
+		w := &writeSet{comps: map[string]string{}, noAlloc: true}
+		e.staticWrites(callee, nil, w, f.depth+1, map[*ssa.Function]bool{callee: true})
+		if w.full {
+			e.fullHavoc(st, "call to "+shortKey(c.Key())+": contract has no frame clause and its body "+w.why)
+		} else {
+			if len(w.prefixes) > 0 {
+				e.havocMatching(st, w.prefixes)
+			}
+			var names []string
+			for n := range w.comps {
+				names = append(names, n)
+			}
+			sort.Strings(names)
+			for _, n := range names {
+				if strings.HasPrefix(n, "L_") {
+					continue
+				}
+				e.comp(st, n, w.comps[n])
+				e.havocComp(st, n)
+			}
+			if len(names) > 0 {
+				e.note("contract of %s has no frame clause: its static write set is havocked at call sites", shortKey(c.Key()))
+			}
+		}
 	}
 	for _, m := range c.Modifies {
 		for _, t := range e.modTargets(env, m) {
